@@ -25,6 +25,8 @@ def e2(text, ref, technique, engine='E2'):
 
 
 T_E1 = 'bounded symbolic model checking of the real code: clang LLVM IR -> C (tools/ir2c.py) -> CBMC/SAT, one query per skeleton vector (history / script / configuration) with symbolic data, differential against a reference model in the harness'
+T_INJ = (' ; concurrent units: the complete operation of a second thread is placed by the runtime model in front of the k-th mutex acquisition / k-th atomic instruction of the operation in progress, or when it blocks '
+         '(one pre-emption per pair of operations, k enumerated over all positions), each placement one CBMC query with symbolic data')
 T_E2 = 'SMT-based bounded model checking of schedules: clang LLVM IR -> guarded event DAG (tools/irdag.py) -> sequential-consistency encoding with one clock per event (tools/mm.py) -> z3; assertion, lifetime, deadlock and bound queries per scenario'
 
 CLAIMED = {
@@ -41,7 +43,7 @@ CLAIMED = {
               T_E2.replace('sequential-consistency encoding', 'sequential-consistency encoding plus C++20 happens-before as vector clocks (data-race query)') + ' ; lock discipline: ' + T_E1, engine='E1+E2'),
     'C04': e1('16 start modes (detach discarded / awaited, start(), start(promise) live / claimed, co_await from a parent, join(), future<T>(coro), returned as future<T>, never started; normal and coroutine mode) x 7 completion modes '
               '(sync value / throw, suspension on a future resolved from normal mode, from a coroutine discarding or awaiting the suspend point) x {int, void, counted} x nesting depth 0..3: body counters, RAII probes of arguments, '
-              'locals and values, allocation balance, value or exact exception reaches exactly the bound party, bound future pending while suspended, start(claimed) returns false and ~async frees the frame.', 'DESIGN.md 5/C04', T_E1),
+              'locals and values, allocation balance, value or exact exception reaches exactly the bound party, bound future pending while suspended, start(claimed) returns false and ~async frees the frame. Unit start_mt: start(promise) against another thread that sets / drops / moves away the same promise, the other operation placed in front of every atomic instruction of start(promise) (one pre-emption): exactly one party owns the outcome, the body runs iff start() reports true.', 'DESIGN.md 3.8, 5/C04', T_E1 + T_INJ),
     'C05': e1('Programs of real async<void> coroutines interpreting scripts (spawn-discard, spawn-and-await, pause, resolve promise k and discard / await, await future k, finish) from normal code or from a coroutine-mode context, all '
               'programs of <=2 (thorough 3) steps plus slices of longer ones and round-robin pause programs up to 4x4, against a lock-step ghost FIFO: nothing made ready runs before the running coroutine suspends or finishes, '
               'FIFO resumption (symmetric-transfer target may overtake), strict round-robin for pause, never resumed while running, empty queue after every outermost activation.', 'DESIGN.md 5/C05', T_E1),
@@ -56,37 +58,37 @@ CLAIMED = {
               'grant order must equal arrival order in every interleaving.', 'DESIGN.md 5/C08', T_E1 + ' ; ' + T_E2, engine='E1+E2'),
     'C09': e1('Every history over {push(v), pop, unblock_pop(e)} up to the stated length, then destruction, for queue<int>, queue<void>, a single_item_queue consumer variant and a real consumer coroutine: '
               'the real queue agrees with a FIFO-pair reference model after every step (which pop completes, with which value / exception, arrival order of waiters, size()/empty(), never both internal '
-              'queues non-empty, cancellation at destruction, allocation balance); values symbolic.', 'DESIGN.md 5/C09', T_E1),
+              'queues non-empty, cancellation at destruction, allocation balance); values symbolic. Unit q_conc: pop against push of another thread at lock-region granularity.', 'DESIGN.md 3.7, 5/C09', T_E1 + T_INJ),
     'C10': e1('For every history over {push(v), pop, unblock_push(e), unblock_pop(e)} up to the stated length and limits, and for all pushed values (solver-decided), the real limited_queue<int> agrees with a reference '
-              'model on the state of every push/pop future after every step, on size()/empty(), on which waiter an unblock hits and with which exception, and on cancellation + allocation balance at destruction.',
-              'DESIGN.md 2, 5/C10', T_E1),
+              'model on the state of every push/pop future after every step, on size()/empty(), on which waiter an unblock hits and with which exception, and on cancellation + allocation balance at destruction. Unit h_lq_conc: two operations of two threads interleaved at lock-region granularity.',
+              'DESIGN.md 2, 3.7, 5/C10', T_E1 + T_INJ),
     'C11': e1('Thread pool under a cooperative thread model (std::thread = table entry run by the harness scheduler, condition_variable::wait parks and unwinds to the scheduler, a notified worker restarts worker() - equivalent because '
               'it parks holding only the lock; notify_one pick is a skeleton input): pools of 1..3 workers, <=3 submissions of six kinds plus jobs submitting jobs, own-thread stop(), delete pool from a worker, stop then submit; '
               'per job ran + cancelled == 1, ran only on a worker id, cancelled coroutines see await_canceled_exception, run() futures report a broken promise, nothing forgotten after a drain (lost notification) or after stop(), '
-              'workers joined / self-detached, no join deadlock, allocation balance. Known finding (printed, exit 0): raw-handle jobs meeting a stopped pool are dropped (D9).', 'DESIGN.md 5/C11', T_E1),
+              'workers joined / self-detached, no join deadlock, allocation balance. Unit h_stop_race: a submission against stop() of another thread placed in front of every mutex acquisition of the submission: nothing is left pending once stop() has returned. Known finding (printed, exit 0): raw-handle jobs meeting a stopped pool are dropped (D9).', 'DESIGN.md 3.7, 5/C11', T_E1 + T_INJ),
     'C12': e1('Manual-mode histories over sleep_until/schedule, cancel(id[,e]), remove(id), get_expired(now) with time points enumerated up to weak order (ties included) and identifiers canonical, against a per-sleep '
               'reference model; the interval() generator with a stop token (request_stop while sleeping / parked / before start; double-lock of the scheduler mutex is a failure); start(awaitable) under a virtual '
               'clock with up to 3 scripted sleepers (never early, on time when idle, in deadline order, cancels hit exactly their target); destruction cancels pending sleeps.', 'DESIGN.md 5/C12', T_E1),
     'C13': e1('Scripted generator bodies (yield lvalue/temporary, await ready / pending future, throw, return; up to 6 entries) x sequences of 11 consumer access styles (next()/value(), iterators, range-for, call -> future, '
               'co_await of either) for generator<int> and generator<int,int>: observed values, argument echo, exception position, single end indication then done(), RAII probes and allocation balance when '
-              'destroyed unstarted / parked / finished; payloads, awaited results and arguments symbolic.', 'DESIGN.md 5/C13', T_E1),
+              'destroyed unstarted / parked / finished; payloads, awaited results and arguments symbolic. Unit sync_other_thread: a synchronous read whose awaited operation is completed by another thread while the reader blocks (wait hook).', 'DESIGN.md 3.8, 5/C13', T_E1 + T_INJ),
     'C14': e1('0..3 (thorough 4) scripted source generators (yield, await pending, throw, return, infinite) x 6 consumer access styles, with and without arguments: per-source order and exactly-once delivery, payloads, '
-              'end / exception only when nothing is left, exception must be one a source threw, argument routing to the source returned last, probes and allocation balance after destruction.', 'DESIGN.md 5/C14', T_E1),
+              'end / exception only when nothing is left, exception must be one a source threw, argument routing to the source returned last, probes and allocation balance after destruction. Units destroy_inflight(_arg): the parked aggregate is destroyed while sources are in flight and another thread completes them while the destructor blocks (wait hook).', 'DESIGN.md 3.8, 5/C14', T_E1 + T_INJ),
     'C15': e1('Histories of up to 3 (thorough 4) events over <=3 listeners (re-awaiting coroutines, connect() callbacks returning true/false, listener on a dead emitter), collector calls by value / rvalue / lvalue / void, '
               'copying and dropping signal / collector handles: each listener log equals the model (every emission while waiting exactly once, right value), cancellation when the last handle goes, '
-              'immediate failure on a disconnected emitter, allocation balance. Sequential half only (listener subscribing on another thread is outside).', 'DESIGN.md 5/C15', T_E1),
+              'immediate failure on a disconnected emitter, allocation balance. Unit sig_mt (listeners subscribing on another thread): 7 pairs of collector call / coroutine subscription / connect / last-handle destruction, the operation of the second thread placed in front of every atomic instruction of the first (one pre-emption), then a second emission and disconnect: no lost listener, no duplicate, cancellation reaches everybody.', 'DESIGN.md 3.8, 5/C15', T_E1 + T_INJ),
     'C16': e1('Histories over publish one / batch, subscribe recent / at position / by copy, next() polled / blocking-when-due / awaited by a coroutine, kick, leave, close for <=2 subscribers, three subscription modes and '
               'queue configurations unlimited,(1,1),(2,1),(3,2),(5,5) against a reference stream + cursors: all_values contiguous, duplicate-free and in order until a justified first end indication; skipping modes '
-              'strictly forward, skip_to_recent newest; close / destruction wakes parked subscribers; copies continue from the original\'s position; values symbolic.', 'DESIGN.md 5/C16', T_E1),
-    'C17': e1('Histories of copy / drop / await (callback awaiter keeping or dropping its own handle, coroutine) / resolve (value, exception, dropped promise) for seven ways of constructing a shared_future<counted>, incl. '
+              'strictly forward, skip_to_recent newest; close / destruction wakes parked subscribers; copies continue from the original\'s position; values symbolic. Unit pub_conc: an operation of the publisher thread in front of every mutex acquisition of an awaited next() of the subscriber.', 'DESIGN.md 3.7, 5/C16', T_E1 + T_INJ),
+    'C17': e2('Histories of copy / drop / await (callback awaiter keeping or dropping its own handle, coroutine) / resolve (value, exception, dropped promise) for seven ways of constructing a shared_future<counted>, incl. '
               'default-construct + get_promise(): same result for all copies, each awaiter resumed once after resolution, counted value constructed and destroyed once, state freed exactly once and only after '
-              'resolution (allocation accounting + use-after-free / double-free obligations). Sequential half only.', 'DESIGN.md 5/C17', T_E1),
+              'resolution (allocation accounting + use-after-free / double-free obligations). Unit sf_mt (E2, every SC interleaving): copy / drop / await / construction-from-a-promise-taking-function on one thread against the resolving thread.', 'DESIGN.md 3, 5/C17', T_E1 + ' ; ' + T_E2, engine='E1+E2'),
     'C18': e1('callback_await / callback_await_alloc (5 allocators), make_promise (3 storages), discard, call_fn_future_awaiter and 7 future_conv converter shapes x outcome (value, exception, drop, converter throws) x timing '
               '(resolved before / after registration on the same thread) x mode: completion runs exactly once and not before the outcome exists, outcome matches, converter result or exception reaches the outer '
-              'future, helper block released exactly once. Concurrent resolution on another thread is outside.', 'DESIGN.md 5/C18', T_E1),
-    'C19': e1('Per storage policy (default, reusable, reusable_mtsafe, stack, placement, reusable_buffer, promise_extra_storage over two bases) real coroutines of two frame sizes in creation/completion programs of <=3 frames '
+              'future, helper block released exactly once. Unit conv_mt: the registration of 6 adapters against the resolving thread, whose complete resolve operation is placed in front of every atomic instruction of the registration (one pre-emption).', 'DESIGN.md 3.8, 5/C18', T_E1 + T_INJ),
+    'C19': e2('Per storage policy (default, reusable, reusable_mtsafe, stack, placement, reusable_buffer, promise_extra_storage over two bases) real coroutines of two frame sizes in creation/completion programs of <=3 frames '
               '(overlapping lifetimes for default and mtsafe): block valid for the requested size, never handed out twice while live, released exactly once with its size, canaries intact, no operator new '
-              'for a size class served before, stack storage only when it fits, extra object constructed once / usable at once / destroyed once. Two-thread use of reusable_storage_mtsafe is outside.', 'DESIGN.md 5/C19', T_E1),
+              'for a size class served before, stack storage only when it fits, extra object constructed once / usable at once / destroyed once; two live frames in one stack_storage region (h_stack2). Unit mtsafe2 (E2, every SC interleaving): two threads creating and finishing coroutine frames on one reusable_storage_mtsafe.', 'DESIGN.md 3, 5/C19', T_E1 + ' ; ' + T_E2, engine='E1+E2'),
     'C20': e1('Every named operation (create / resolve / await by coroutine, blocking thread, callback / destroy a future-promise pair of int, void, small struct; lock, contend, hand over, release the mutex; build, merge, move, '
               'pop, clear a suspend point with <=3 handles; step a synchronous generator) runs inside an allocation region from states produced by short prefixes: operator new calls in the region == coroutine frames '
               'the harness created there (0 under placement_alloc). Excluded by statement: ready-queue deque growth every 64 pushes, >3 handles per suspend point.', 'DESIGN.md 5/C20', T_E1),
@@ -120,7 +122,7 @@ def main():
             {'name': 'E1', 'path': 'tools/e1.py', 'serves_properties': sorted(p for p in CLAIMED if CLAIMED[p].get('engine', 'E1') in ('E1', 'E1+E2')),
              'kind_free_text': 'harness .cpp -> clang-14 LLVM IR of the real headers -> tools/ir2c.py -> C + rt/rt.h runtime model -> CBMC 6.11 (SAT); skeleton vectors enumerated, data symbolic; counterexamples replayed on a native g++ sanitizer build'},
             {'name': 'E2', 'path': 'tools/e2.py', 'serves_properties': sorted(p for p in CLAIMED if 'E2' in CLAIMED[p].get('engine', 'E1')),
-             'kind_free_text': 'same LLVM IR -> tools/irsym.py per-thread symbolic execution into guarded event trees -> tools/mm.py SC / RC11 encoding -> z3; schedules and reads-from are solver variables'},
+             'kind_free_text': 'same LLVM IR -> tools/irdag.py (on tools/irsym.py) per-thread guarded symbolic execution into event DAGs -> tools/mm.py SC encoding (+ C++20 happens-before for the race query) -> z3; schedules and reads-from are solver variables'},
         ],
         'checks': checks,
         'not_applicable': na,
